@@ -227,6 +227,28 @@ def class_as_key(w: World, t, seen=None) -> bool:
     return False
 
 
+def value_has_class_key(x, depth=0) -> bool:
+    """The same for what sits in an Any / untyped position: the VALUE holds an instance as a mapping key or set element
+    (an instance in an Any slot is encoded by its class, so a class-keyed dict inside it meets the same inherent limit)."""
+    import dataclasses
+    is_inst = lambda o: attrs.has(type(o)) or (dataclasses.is_dataclass(o) and not isinstance(o, type))
+
+    def inst_inside(o):
+        return is_inst(o) or (isinstance(o, tuple) and any(inst_inside(e) for e in o))
+    if depth > 12:
+        return False
+    if isinstance(x, dict):
+        return any(inst_inside(k) or value_has_class_key(e, depth + 1) for k, e in x.items())
+    if isinstance(x, (set, frozenset)):
+        return any(inst_inside(e) for e in x)
+    if isinstance(x, (list, tuple)) or type(x).__name__ == "deque":
+        return any(value_has_class_key(e, depth + 1) for e in x)
+    if is_inst(x):
+        names = [a.name for a in attrs.fields(type(x))] if attrs.has(type(x)) else [f.name for f in dataclasses.fields(x)]
+        return any(value_has_class_key(getattr(x, n, None), depth + 1) for n in names)
+    return False
+
+
 def reaches(w: World, t, pred, seen=None) -> bool:
     """Does some class reachable from t satisfy pred(spec)?"""
     seen = set() if seen is None else seen
@@ -501,7 +523,7 @@ def conv_session(v: Verdict, name: str, flags: dict, n_worlds: int, profile: dic
                     S.add_case(w, tables, cases, "U", cfg, forbid, t, x, ures)
                     if "C03" in oracles and ures[0] == "ok":
                         oracle_c03(v, w, cfg, t, x, ures[1])
-                    if ures[0] == "err" and "C03" in oracles and conforms_py(w, x, t) and (full or base_ok(w, t)) and not (strat == "dict" and class_as_key(w, t)):
+                    if ures[0] == "err" and "C03" in oracles and conforms_py(w, x, t) and (full or base_ok(w, t)) and not (strat == "dict" and (class_as_key(w, t) or value_has_class_key(x))):
                         v.violation("unstructure raised on a value of the type", rp(w, cfg, forbid, t, x, ures, "C03"))
                     if ures[0] != "ok":
                         continue
